@@ -149,10 +149,13 @@ class MinimizeSpy:
         self.mod.minimize = self.orig
 
 
-def run_e2e(name="xsm2", perm=None, sign=None, shift=None, reuse=None, int_guess=False):
+def run_e2e(name="xsm2", perm=None, sign=None, shift=None, reuse=None, int_guess=False,
+            guess_off=None):
     """setupThermodynamicsHydrodynamics + equilibrium solveWall in relabelled coordinates.
     reuse = (manager, model) of an earlier run: the model is relabelled in place and the
-    same manager is set up and solved again.  int_guess: phase guesses of integer dtype."""
+    same manager is set up and solved again.  int_guess: phase guesses of integer dtype.
+    guess_off = (d1, d2): the user's two phase guesses are moved by these vectors (base
+    coordinates) inside the basins of their minima."""
     import logging
     import WallGo
     from WallGo import Fields
@@ -169,6 +172,9 @@ def run_e2e(name="xsm2", perm=None, sign=None, shift=None, reuse=None, int_guess
     else:
         manager, model = reuse
         relabel_model(model, perm, sign, shift)
+    if guess_off is not None:
+        ph1 = [a + b for a, b in zip(ph1, guess_off[0])]
+        ph2 = [a + b for a, b in zip(ph2, guess_off[1])]
     g1, g2 = to_new(ph1, perm, sign, shift), to_new(ph2, perm, sign, shift)
     if int_guess:
         g1, g2 = np.rint(g1).astype(int), np.rint(g2).astype(int)
@@ -196,7 +202,8 @@ def run_e2e(name="xsm2", perm=None, sign=None, shift=None, reuse=None, int_guess
         phaseHigh=[float(x) for x in np.ravel(th.freeEnergyHigh(TN).fieldsAtMinimum)],
         thickBounds=[float(x) for x in cfg.wallThicknessBounds],
         offBounds=[float(x) for x in cfg.wallOffsetBounds], Tnucl=float(th.Tnucl),
-        minimize_calls=len(spy.calls), profiles=prof.tolist())
+        minimize_calls=len(spy.calls), profiles=prof.tolist(),
+        guesses=[[float(x) for x in g1], [float(x) for x in g2]])
     if res.temperatureMinus is not None and res.temperaturePlus is not None:
         out["vevLowTm"] = [float(x) for x in np.ravel(
             th.freeEnergyLow(res.temperatureMinus).fieldsAtMinimum)]
@@ -241,10 +248,11 @@ def expected_from_base(base, perm, sign, shift):
 # Tolerances.  The wall solver's brentq stops at xtol = errTol = 1e-3 in vw.  When another
 # field is pinned (perm[0] != 0) the grid is centred elsewhere and the discretisation differs:
 # observed scatter 4.2e-4 in vw, 3e-4 rel in T+-, 1.2e-4 rel in the widths, 3e-4 of a width in
-# the wall separation -> vw 2*errTol, T+- 1.5e-3, widths / separation 5e-3 (40x the scatter).
+# the wall separation -> vw 2*errTol, T+- 1.5e-3, widths 1e-3, separation 2e-3 (margins are
+# recorded in the evidence, coverage.margins, and stay below 0.3).
 # With the same field order (translation / reflection) only rounding and the minimiser's
 # termination differ: observed 3e-7 in vw, 4e-5 rel in the widths (also for shifts 1e4, 1e6).
-TOL_REPIN = dict(vw=2e-3, vwLTE=1e-5, vJ=1e-6, T=1.5e-3, width=5e-3, sep=5e-3, phase=1e-4)
+TOL_REPIN = dict(vw=2e-3, vwLTE=1e-5, vJ=1e-6, T=1.5e-3, width=1e-3, sep=2e-3, phase=1e-4)
 TOL_SAME = dict(vw=2e-5, vwLTE=1e-5, vJ=1e-6, T=1e-5, width=5e-4, sep=5e-4, phase=1e-4)
 
 
@@ -270,7 +278,9 @@ def compare_runs(ctx, base, new, perm, sign, shift, label, shift_class=None, sam
     other = everything else.  Returns (ok, deviations)."""
     exp = expected_from_base(base, perm, sign, shift)
     n = len(perm)
-    same = list(perm) == list(range(n)) if same_tol is None else same_tol
+    # exact correspondence of the minimisers (objective_covariant_same_pin) whenever the
+    # pinned field stays first, whatever happens to the other fields
+    same = (perm[0] == 0) if same_tol is None else same_tol
     TOL = TOL_SAME if same else TOL_REPIN
     case = dict(model=base["model"], perm=list(perm), sign=list(sign), shift=list(shift),
                 label=label)
@@ -336,9 +346,22 @@ def compare_runs(ctx, base, new, perm, sign, shift, label, shift_class=None, sam
     dev = dict(vw=abs((new["vw"] or 0) - (exp["vw"] or 0)),
                width=max(abs(new["widths"][j] / exp["widths"][j] - 1) for j in range(n))
                if len(new["widths"]) == n else float("nan"),
-               T=abs((new["Tplus"] or 0) / exp["Tplus"] - 1))
+               T=abs((new["Tplus"] or 0) / exp["Tplus"] - 1),
+               sep=max([abs(new["offsets"][j] * new["widths"][j] - exp["offsets"][j] *
+                            exp["widths"][j]) / max(exp["widths"]) for j in range(1, n)]
+                       or [0.0]) if len(new["widths"]) == n else float("nan"))
     ctx.count("e2e_relabelled_run", case, bucket="%s:%s" % (base["model"], label))
     key = e2e_key(base["model"], perm, sign, shift, shift_class)
+    # margins: largest observed deviation / tolerance per tolerance class (runs that fail are
+    # reported as failing inputs, not as margins)
+    if not core and hasattr(ctx, "cov"):
+        mg = ctx.cov.setdefault("margins", {})
+        cls = "same-pin" if same else "re-pinned"
+        for q, r in (("vw", dev["vw"] / TOL["vw"]), ("T", dev["T"] / TOL["T"]),
+                     ("width", dev["width"] / TOL["width"]), ("sep", dev["sep"] / TOL["sep"])):
+            if r == r:
+                k = "%s:%s" % (cls, q)
+                mg[k] = round(max(mg.get(k, 0.0), r), 4)
     if core:
         k = key
         sig = KNOWN_SIGNATURE.get(KNOWN_KEYS.get(key))
@@ -797,9 +820,9 @@ def int_dtype_check(ctx):
     """findLocalMinimum with a phase guess of integer dtype (what a user types: Fields([0,
     110])) against the same guess as floats, on the xsm2 potential, plain and translated"""
     from WallGo import Fields
-    for shift in ((0.0, 0.0), (0.5, 0.5)):
+    for shift in ((0.0, 0.0), (3.0, -2.0)):
         pot = make_model("xsm2", (0, 1), (1, 1), shift).getEffectivePotential()
-        gi = np.rint(np.array([0.0, 110.0]) + shift[0] * 0).astype(int)
+        gi = np.rint(np.array([0.0, 110.0]) + np.array(shift)).astype(int)
         loc_i, _ = pot.findLocalMinimum(Fields(gi), TN)
         loc_f, _ = pot.findLocalMinimum(Fields(gi.astype(float)), TN)
         ctx.count("unit_int_dtype_guess", dict(shift=shift))
@@ -938,25 +961,43 @@ Ltac ev := cbv beta iota delta [wallProfile_ret0 wallProfile_ret1 action_ret tem
 
 # ------------------------------------------------------------------------------------
 
+def rand_vec(rng, n, lo, hi):
+    """random vector with norm in [lo, hi] (base coordinates, inside the basin of a phase)"""
+    v = [rng.uniform(-1, 1) for _ in range(n)]
+    nv = math.sqrt(sum(x * x for x in v)) or 1.0
+    r = rng.uniform(lo, hi)
+    return [r * x / nv for x in v]
+
+
 def transformations(ctx):
-    """list of dict(model, perm, sign, shift | special, label, reuse, int_guess).
-    special shifts are computed from the base run's phases AT THE SOLUTION (T-, T+):
-      ("nearzero", [(phase, delta), ...]) : new coordinate j of that phase = delta_j
-      ("equal", phase, value)            : all new coordinates of that phase = value"""
+    """list of dict(model, perm, sign, shift | special, label, reuse, int_guess, guess_off).
+    special shifts are computed from the base run:
+      ("nearzero", [(phase, delta), ...]) : coordinate j of that phase AT THE SOLUTION (T-/T+)
+                                            = delta_j
+      ("equal", phase, value)            : all coordinates of that phase (at T-/T+) = value
+      ("at_Tn", phase, [delta_j])        : that phase AT Tn sits at delta from the origin
+      ("minus_guess", phase)             : the user's guess of that phase is the origin
+    guess_off moves the two guesses inside their basins (the base run uses the fixed ones)."""
     rng = ctx.rng
-    dl = [x * 1e-2 * TN for x in (0.3, -0.3, 0.9, -0.9)]
+    dl = [x * 1e-2 * TN for x in (0.3, -0.3, 0.9, -0.9, 0.03, -0.03)]
+
+    def goff(n):
+        return [rand_vec(rng, n, 5.0, 40.0), rand_vec(rng, n, 5.0, 40.0)]
     quick = [
-        # the swap, on the SAME manager and model object as the base run (relabelled in place)
-        dict(model="xsm2", perm=(1, 0), sign=(1, 1), shift=(0.0, 0.0), label="permutation",
-             reuse=True),
+        # the swap, on the SAME manager and model object as the base run (relabelled in
+        # place); the low-T guess is the new origin (guess much closer to the origin than to
+        # its minimum)
+        dict(model="xsm2", perm=(1, 0), sign=(1, 1), special=("minus_guess", "low"),
+             label="permutation", reuse=True),
         # partial reflections (an ODD number of fields reflected) expose cross terms
-        # phi_i' phi_j'; the shifts put one coordinate of each phase next to the origin /
-        # make the two coordinates of a phase equal (special values of the new origin)
+        # phi_i' phi_j'; one coordinate of each phase at the solution next to the origin
         dict(model="xsm2", perm=(0, 1), sign=(-1, 1),
              special=("nearzero", [("low", rng.choice(dl)), ("high", rng.choice(dl))]),
-             label="reflection+nearzero"),
-        dict(model="xsm2", perm=(0, 1), sign=(1, -1), special=("equal", "high", 40.0),
-             label="reflection+equal"),
+             guess_off=goff(2), label="reflection+nearzero+guesses"),
+        # the high-T phase AT Tn exactly on the new origin (standard guesses: a different
+        # guess moves the minimum found by ~1e-3, which would blur "exactly")
+        dict(model="xsm2", perm=(0, 1), sign=(1, -1), special=("at_Tn", "high", [0.0, 0.0]),
+             label="reflection+origin-at-Tn-phase"),
         # three fields, s pinned: decidable in the quick tier
         dict(model="xsm3", perm=(1, 0, 2), sign=(-1, 1, -1),
              shift=tuple(float(rng.randint(-120, 120)) for _ in range(3)), label="general"),
@@ -967,8 +1008,8 @@ def transformations(ctx):
     if ctx.quick:
         return quick
     out = list(quick)
-    # history: the base manager a third time, back in the original order, translated
-    out.insert(1, dict(model="xsm2", perm=(0, 1), sign=(1, 1), shift=(60.0, -45.0),
+    # history: the base manager a third time, back in the original order, reflected+translated
+    out.insert(1, dict(model="xsm2", perm=(0, 1), sign=(-1, 1), shift=(60.0, -45.0),
                        label="translation", reuse=True))
     out.append(dict(model="xsm2", perm=(0, 1), sign=(1, 1), shift=(0.0, 0.0),
                     label="int-typed-guesses", int_guess=True))
@@ -976,10 +1017,29 @@ def transformations(ctx):
                     label="reflection"))
     out.append(dict(model="xsm2", perm=(0, 1), sign=(-1, -1), shift=(0.0, 0.0),
                     label="reflection"))
+    out.append(dict(model="xsm2", perm=(0, 1), sign=(1, -1), special=("equal", "high", 40.0),
+                    label="reflection+equal"))
+    # the exact 0 rotates over the fields
     for ph in ("low", "high"):
+        z = rng.randrange(2)
+        d = [0.0, 0.0]
+        d[1 - z] = rng.choice(dl)
         out.append(dict(model="xsm2", perm=(0, 1), sign=(1, 1),
-                        special=("nearzero", [(ph, 0.0), (ph, rng.choice(dl))]),
-                        label="nearzero"))
+                        special=("nearzero", [(ph, d[0]), (ph, d[1])]), label="nearzero"))
+        # the phase at Tn on / next to the origin, plain and with varied guesses
+        out.append(dict(model="xsm2", perm=(0, 1), sign=(1, 1), special=("at_Tn", ph, [0.0, 0.0]),
+                        label="origin-at-Tn-phase"))
+        d2 = [0.0, 0.0]
+        d2[rng.randrange(2)] = rng.choice(dl)
+        out.append(dict(model="xsm2", perm=(0, 1), sign=(rng.choice((1, -1)), 1),
+                        special=("at_Tn", ph, d2), guess_off=goff(2),
+                        label="near-origin-at-Tn-phase"))
+        out.append(dict(model="xsm2", perm=(0, 1), sign=(1, 1), special=("minus_guess", ph),
+                        guess_off=goff(2), label="origin-at-guess"))
+    # guesses only (no relabelling): far from and close to the minimum
+    out.append(dict(model="xsm2", perm=(0, 1), sign=(1, 1), shift=(0.0, 0.0),
+                    guess_off=[rand_vec(rng, 2, 35.0, 45.0), rand_vec(rng, 2, 0.5, 2.0)],
+                    label="guesses"))
     out.append(dict(model="xsm2", perm=(1, 0), sign=(1, -1), special=("equal", "low", -25.0),
                     label="equal"))
     for perm in ((0, 1), (1, 0)):
@@ -995,6 +1055,9 @@ def transformations(ctx):
     out.append(dict(model="xsm3", perm=(0, 2, 1), sign=(1, -1, 1),
                     special=("nearzero", [("low", rng.choice(dl)), ("low", rng.choice(dl)),
                                           ("high", rng.choice(dl))]), label="nearzero"))
+    out.append(dict(model="xsm3", perm=(0, 2, 1), sign=(-1, 1, 1),
+                    special=("at_Tn", "low", [0.0, 0.0, 0.0]), guess_off=goff(3),
+                    label="origin-at-Tn-phase"))
     return out
 
 
@@ -1011,6 +1074,18 @@ def resolve_shift(tr, base):
                      for j in range(n)), "nearzero"
     if sp[0] == "equal":
         return tuple(sp[2] - sign[j] * coord[sp[1]][perm[j]] for j in range(n)), "equal"
+    if sp[0] == "at_Tn":
+        # the phase AT THE NUCLEATION TEMPERATURE (what validatePhaseInput / tracePhase / the
+        # thermodynamics start from) sits at delta from the new origin
+        c = dict(low=base["phaseLow"], high=base["phaseHigh"])[sp[1]]
+        return tuple(-sign[j] * c[perm[j]] + sp[2][j] for j in range(n)), "atTn"
+    if sp[0] == "minus_guess":
+        # the user's GUESS of that phase becomes the origin
+        _, ph1, ph2, _ = MODELS[tr["model"]]
+        g = list(ph1 if sp[1] == "high" else ph2)
+        if tr.get("guess_off"):
+            g = [a + b for a, b in zip(g, tr["guess_off"][0 if sp[1] == "high" else 1])]
+        return tuple(-sign[j] * g[perm[j]] for j in range(n)), "minusguess"
     raise ValueError(sp)
 
 
@@ -1097,12 +1172,13 @@ def run(ctx):
         perm, sign, label = tr["perm"], tr["sign"], tr["label"]
         shift, sclass = resolve_shift(tr, base)
         case = dict(model=name, perm=list(perm), sign=list(sign), shift=list(shift),
-                    label=label, reuse=bool(tr.get("reuse")), int_guess=bool(tr.get("int_guess")))
+                    label=label, reuse=bool(tr.get("reuse")), int_guess=bool(tr.get("int_guess")),
+                    guess_off=tr.get("guess_off"))
         key = e2e_key(name, perm, sign, shift, sclass)
         try:
             new = run_e2e(name, perm, sign, shift,
                           reuse=base["_handles"] if tr.get("reuse") else None,
-                          int_guess=bool(tr.get("int_guess")))
+                          int_guess=bool(tr.get("int_guess")), guess_off=tr.get("guess_off"))
         except Exception as ex:
             ctx.log("relabelled run raised", traceback.format_exc())
             ctx.count("e2e_relabelled_run", case, bucket="%s:%s" % (name, label))
@@ -1150,21 +1226,24 @@ def run(ctx):
         "scales 50/30 permuted along), xsm3 = the same plus a heavy field following "
         "0.3 h^2/246 (third wall, same free energies); Tn=100, equilibrium solveWall, default "
         "config (energy-momentum conservation on). quick = xsm2 base; the swap ON THE SAME "
-        "manager and model object (relabelled in place); reflection (-,+) with a shift that "
-        "puts the h coordinate of the low-T phase at T- and the s coordinate of the high-T "
-        "phase at T+ at delta in {+-0.3,+-0.9} (seeded) next to the origin; reflection (+,-) "
-        "with both coordinates of the high-T phase equal to 40; xsm3 (s,h,chi) with signs "
-        "(-,+,-) and seeded integer shifts; the recorded xsm3 finding (chi listed first, "
-        "matched to its key only if vw and widths are the recorded ones). thorough adds a "
-        "third use of the same manager, integer-typed phase guesses, exact-zero and two-"
-        "coordinate near-zero shifts for either phase, equal coordinates with a swap, both "
-        "xsm2 orderings x all four sign patterns with random integer shifts in [-120,120]^2, "
-        "pure reflections, and the xsm3 orderings that pin h or s with random signs/shifts and "
+        "manager and model object (relabelled in place) with the low-T GUESS as the new origin; "
+        "reflection (-,+) with a shift that puts the h coordinate of the low-T phase at T- and "
+        "the s coordinate of the high-T phase at T+ at delta in {+-0.03,+-0.3,+-0.9} (seeded) "
+        "next to the origin and with both guesses moved by random vectors of norm 5-40 inside "
+        "their basins; reflection (+,-) with the high-T phase AT Tn exactly on the origin; xsm3 "
+        "(s,h,chi) with signs (-,+,-) and seeded integer shifts; the recorded xsm3 finding (chi "
+        "listed first, matched to its key only if vw and widths are the recorded ones). thorough "
+        "adds a third use of the same manager, integer-typed phase guesses, either phase at Tn "
+        "on / next to the origin (exact zero rotating over the fields) with and without moved "
+        "guesses, either guess as the origin, guesses far from (35-45) and close to (0.5-2) "
+        "their minima, equal coordinates, both xsm2 orderings x all four sign patterns with "
+        "random integer shifts in [-120,120]^2, pure reflections, and the xsm3 orderings that "
+        "pin h or s with random signs/shifts, "
         "near-zero shifts. Compared: vw, vwLTE, vJ, T+-, widths, wall separations through the "
-        "re-pinning law, phases at Tn, results.fieldProfiles (end points always, every row for "
-        "the same field order). Tolerances when another field is pinned: vw 2e-3 = 2*errTol "
-        "(observed 4.2e-4), T+- 1.5e-3 rel (observed 3e-4), widths and separation 5e-3 "
-        "(observed 1.2e-4); same field order: vw 2e-5 (observed 3e-7), T+- 1e-5, widths and "
+        "re-pinning law, phases at Tn, results.fieldProfiles (end points always, every row "
+        "when the pinned field stays first). Tolerances when another field is pinned: vw 2e-3 "
+        "= 2*errTol (observed 4.2e-4), T+- 1.5e-3 rel (observed 3e-4), widths 1e-3 (observed "
+        "1.2e-4), separation 2e-3 (observed 3e-4); pinned field unchanged: vw 2e-5 (observed 3e-7), T+- 1e-5, widths and "
         "separation 5e-4 (observed 4e-5); always vwLTE 1e-5, vJ 1e-6, phases 1e-4*246. "
         "Particle clause: 2-3 fields, two stub particles with quadratic mass forms and random "
         "Delta00/02/20/11 relabelled along, through EOM.action, EOM._intermediatePressureResults "
@@ -1199,7 +1278,7 @@ def replay(rep):
         base = run_e2e(name)
         new = run_e2e(name, tuple(c["perm"]), tuple(c["sign"]), tuple(c["shift"]),
                       reuse=base["_handles"] if c.get("reuse") else None,
-                      int_guess=bool(c.get("int_guess")))
+                      int_guess=bool(c.get("int_guess")), guess_off=c.get("guess_off"))
         print("base:", json.dumps(_slim(base)))
         print("new :", json.dumps(_slim(new)))
         print("bounds seen:", new["bounds_seen"])
